@@ -22,6 +22,8 @@ type c17Case struct {
 	Fields   map[string]string `json:"fields,omitempty"` // argument path ("input", "input.title") -> class
 	Variant  string            `json:"variant,omitempty"`
 	Gen      string            `json:"gen,omitempty"`
+	Topo     string            `json:"topo,omitempty"` // served registry (c17Topologies); "": the single default repository
+	Repo     int               `json:"repo,omitempty"` // index of the addressed repository of that registry
 	Rnd      int64             `json:"rnd"`
 	Seed     int64             `json:"seed"`
 }
@@ -149,6 +151,11 @@ func c17CaseSig(c c17Case) string {
 	who := "anon"
 	if c.Auth {
 		who = "user"
+	}
+	if c.Topo != "" {
+		cc := c
+		cc.Topo = ""
+		return fmt.Sprintf("registry:%s/repo%d/%s", c.Topo, c.Repo, c17CaseSig(cc))
 	}
 	switch c.Kind {
 	case "after":
